@@ -94,11 +94,11 @@ func c04Use(res interface{ String() string }, node Node) (panicked bool) {
 func vfH_C04_window(tier int) {
 	vfLooseLibraries()
 	w := 2
-	if tier > 0 {
-		w = 3
-	}
 	ai := vfChoice(len(c04Anchors))
 	a := c04Anchors[ai]
+	if tier > 0 && (ai == 0 || ai == 3) {
+		w = 3 // thorough: three-character windows on the empty frame and after WHERE
+	}
 	n := vfChoice(w + 1)
 	if tier == 0 && n == 2 && ai%3 != 1 {
 		return // quick tier: two-character windows at every third anchor only
@@ -121,7 +121,7 @@ func vfH_C04_window(tier int) {
 	vfNote(a[0] + "<window>" + a[1])
 	vfNoteRunes("window", win)
 	api := 0
-	if n < 2 || tier > 0 {
+	if n < 2 || (tier > 0 && n == 2) {
 		api = vfChoice(3) // the other two entry points get the shorter windows in the quick tier
 	}
 	switch api {
@@ -186,6 +186,9 @@ func vfH_C04_damaged(tier int) {
 	}
 	var out []rune
 	dmg := vfChoice(4)
+	if tier > 0 && dmg >= 2 && kind%2 != 0 {
+		return // thorough tier: arbitrary characters are injected into every second statement family
+	}
 	if tier == 0 && dmg >= 2 && kind%6 != 0 {
 		return // quick tier: arbitrary characters are injected into every sixth statement family only
 	}
